@@ -88,7 +88,14 @@ func C14(x *Ctx) []Violation {
 		k = 7
 	}
 	for i := 0; i < k; i++ {
+		saved := x.Env.Extra
+		if i == 0 {
+			// the same command line as `go generate` runs it: these variables are no input of moq
+			x.Env.Extra = append(append([]string{}, saved...), "GOPACKAGE=zzgeneratingpkg", "GOFILE=zz_generate.go", "GOLINE=7", "DOLLAR=$")
+			x.Note("runs_with_go_generate_environment")
+		}
 		_, r := x.RunWith(func(cfg *core.Config) {})
+		x.Env.Extra = saved
 		if r.Exit != r0.Exit {
 			vs = append(vs, Violation{"C14", "exit-stable", fmt.Sprintf("run %d exits %d, first run exited %d (same command line %v)", i+2, r.Exit, r0.Exit, r0.Argv)})
 			break
